@@ -9,8 +9,8 @@ RULE = (
     "keys, from headers, other variables and arithmetic on the previous value, tally/sum/subtotal/counter/first/count(value) with name "
     "qualifiers and onmatch, push/push.distinct/pop/peek/peek_size, count()/count_lines()/count_scans()/line_number() - with a filter "
     "component in no/first/last position; file of <=3 records; scan window); the real run is compared with models/refinterp.py on the "
-    "final variables, scan_count, match_count, returned lines and, per evaluated line, a last-position print of "
-    "$.csvpath.count_scans/$.csvpath.line_number; cases in which the documentation leaves a step open are not asserted; non-trivial = "
+    "final variables, scan_count, match_count, returned lines and, per evaluated line, a last-position print of the first writer's variable, "
+    "$.csvpath.count_scans and $.csvpath.line_number; cases in which the documentation leaves a step open are not asserted; non-trivial = "
     ">=2 variables written and at least one line rejected; state = (variables, counters, record)"
 )
 BOUNDS = {
@@ -67,6 +67,27 @@ WRITERS = [
     ["->", ["==", H0, T("1")], ["=", ["v", "w"], [], H1]],
     ["->", ["==", H0, T("1")], ["=", ["v", "p2"], [], fn("pop", [], [T("s")])]],
 ]
+def written_var(w):
+    """name of the (named) variable a writer component maintains, or None."""
+    if w[0] == "=":
+        return w[1][1]
+    if w[0] == "->":
+        return written_var(w[2])
+    if w[0] == "f":
+        name, quals, args = w[1], w[2], w[3]
+        q = [x for x in quals if x not in ("onmatch", "distinct", "notnone")]
+        if name == "push":
+            return args[0][1]
+        if name == "tally":
+            base = q[0] if q else "tally"
+            return f"{base}_{args[0][1]}"
+        if name in ("sum", "subtotal", "first"):
+            return q[0] if q else name
+        if name in ("counter", "count"):
+            return q[0] if q else None
+    return None
+
+
 XON = next(i for i, w in enumerate(WRITERS) if w[0] == "=" and w[1][1] == "x" and "onmatch" in w[2])
 FILTERS = [["==", H0, T("1")], fn("no"), ["==", H1, T("2")]]
 PRINT = fn("print", [], [T("$.csvpath.count_scans $.csvpath.line_number ")])
@@ -145,7 +166,13 @@ def run_case(case):
     for i, ch in enumerate(case["file"]):
         r = ROWS[ch]
         rows.append([] if r is None else list(r) + ["#" + str(i)])
-    comps = case["comps"] + [PRINT]
+    wv = None
+    for w in case["comps"]:
+        wv = written_var(w)
+        if wv:
+            break
+    pr = PRINT if not wv else fn("print", [], [T(f"$.variables.{wv} $.csvpath.count_scans $.csvpath.line_number ")])
+    comps = case["comps"] + [pr]
     n = len(rows)
     offered = set(refscan.denote(case["scan"], n))
     scan_last = None if case["scan"][0][0] in ("all", "from") else max(refscan.denote(case["scan"], 10**6))
@@ -185,8 +212,19 @@ def run_case(case):
         want = [rows[i][-1] for i in ret]
         if got != want:
             bad("returned lines", got, want)
-        if o["printouts"] != it.prints:
-            bad("per-line count_scans/line_number", o["printouts"], it.prints)
+        gp, ep = list(o["printouts"] or []), list(it.prints)
+        if len(gp) != len(ep):
+            bad("per-line print: number of entries", gp, ep)
+        else:
+            for g, e in zip(gp, ep):
+                if e.startswith("<UNSET>"):
+                    # a reference to a variable that does not exist yet prints an unspecified text: compare the counters only
+                    if g.split(" ")[-3:] != e.split(" ")[-3:]:
+                        bad("per-line count_scans/line_number", gp, ep)
+                        break
+                elif g != e:
+                    bad("per-line print of the variable / count_scans / line_number", gp, ep)
+                    break
     nonblank = sum(1 for r in rows if r)
     states = [run.h64((run.jsonable(it.vars), it.scan_count, it.match_count, t.get("i"))) for t in it.trace]
     return {
